@@ -39,33 +39,52 @@ struct Pipe {
   bool empty() const { return avail() == 0; }
   void clear() { buf.clear(); rpos = 0; }
 };
+struct Fault {
+  long fail_at = -1;  // index of the primitive call that fails
+  int fail_with = 0;
+  long calls = 0, calls_after_failure = 0;
+  bool failed = false;
+  // returns true if this call must fail
+  bool hit() {
+    if (failed) calls_after_failure++;
+    bool h = calls == fail_at;
+    calls++;
+    if (h) failed = true;
+    return h;
+  }
+};
 struct QWriter {
   Pipe* p;
-  nop::Status<void> Prepare(std::size_t) { return {}; }
-  nop::Status<void> Write(std::uint8_t b) { p->buf.push_back(b); return {}; }
+  Fault f;
+  nop::Status<void> Prepare(std::size_t) { if (f.hit()) return (nop::ErrorStatus)f.fail_with; return {}; }
+  nop::Status<void> Write(std::uint8_t b) { if (f.hit()) return (nop::ErrorStatus)f.fail_with; p->buf.push_back(b); return {}; }
   template <typename T, typename E = nop::EnableIfArithmetic<T>>
   nop::Status<void> Write(const T* b, const T* e) {
+    if (f.hit()) return (nop::ErrorStatus)f.fail_with;
     const uint8_t* s = reinterpret_cast<const uint8_t*>(b);
     p->buf.insert(p->buf.end(), s, s + (e - b) * sizeof(T));
     return {};
   }
-  nop::Status<void> Skip(std::size_t n, std::uint8_t v = 0) { p->buf.insert(p->buf.end(), n, v); return {}; }
+  nop::Status<void> Skip(std::size_t n, std::uint8_t v = 0) { if (f.hit()) return (nop::ErrorStatus)f.fail_with; p->buf.insert(p->buf.end(), n, v); return {}; }
 };
 struct QReader {
   Pipe* p;
   std::function<void()> on_dry;  // runs the peer once when more bytes are needed
+  Fault f;
   bool need(size_t n) {
     if (p->avail() < n && on_dry) on_dry();
     return p->avail() >= n;
   }
-  nop::Status<void> Ensure(std::size_t n) { return need(n) ? nop::Status<void>{} : nop::Status<void>{nop::ErrorStatus::ReadLimitReached}; }
+  nop::Status<void> Ensure(std::size_t n) { if (f.hit()) return (nop::ErrorStatus)f.fail_with; return need(n) ? nop::Status<void>{} : nop::Status<void>{nop::ErrorStatus::ReadLimitReached}; }
   nop::Status<void> Read(std::uint8_t* b) {
+    if (f.hit()) return (nop::ErrorStatus)f.fail_with;
     if (!need(1)) return nop::ErrorStatus::ReadLimitReached;
     *b = p->buf[p->rpos++];
     return {};
   }
   template <typename T, typename E = nop::EnableIfArithmetic<T>>
   nop::Status<void> Read(T* b, T* e) {
+    if (f.hit()) return (nop::ErrorStatus)f.fail_with;
     size_t k = (e - b) * sizeof(T);
     if (!need(k)) return nop::ErrorStatus::ReadLimitReached;
     if (k) memcpy(b, p->buf.data() + p->rpos, k);
@@ -73,6 +92,7 @@ struct QReader {
     return {};
   }
   nop::Status<void> Skip(std::size_t n) {
+    if (f.hit()) return (nop::ErrorStatus)f.fail_with;
     if (!need(n)) return nop::ErrorStatus::ReadLimitReached;
     p->rpos += n;
     return {};
@@ -167,10 +187,12 @@ struct CallOp {
   std::string expect_log;  // handler log entry expected (without #id suffix)
 };
 
+static int g_last_invoke_error = 0;
 template <class Method, class Ret, class... Args2>
 static std::string do_invoke(Conn& c, const Ret& want, bool (*eq)(const Ret&, const Ret&), Args2&&... args) {
   auto sender = nop::MakeSimpleMethodSender(&c.cser, &c.cdes);
   auto st = Method::Invoke(&sender, std::forward<Args2>(args)...);
+  g_last_invoke_error = st ? 0 : (int)st.error();
   if (!st) return std::string("Invoke failed with ") + std::to_string((int)st.error());
   if (!eq(st.get(), want)) return "Invoke returned a different value than the handler's return value";
   return "";
@@ -382,6 +404,50 @@ static void explore_bad_requests(const char* tag, const std::vector<CallOp>& ops
   }
 }
 
+// I/O faults on the caller's side: every primitive call of the client's writer and reader fails in turn; Invoke must
+// return that error, issue no further calls on the failed object, and (writer faults) never run the server afterwards
+template <class Bindings>
+static void explore_client_faults(const char* tag, const std::vector<CallOp>& ops, const Bindings& b) {
+  for (size_t i = 0; i < ops.size(); i++) {
+    long wcalls = 0, rcalls = 0;
+    {
+      Conn c;
+      c.cr.on_dry = [&]() { if (!c.req.empty()) serve_once(c, b); };
+      g_log.clear();
+      ops[i].run(c);
+      wcalls = c.cw.f.calls;
+      rcalls = c.cr.f.calls;
+    }
+    for (int side = 0; side < 2; side++)
+      for (long k = 0; k < (side == 0 ? wcalls : rcalls); k++)
+        for (int e : {(int)nop::ErrorStatus::IOError, (int)nop::ErrorStatus::WriteLimitReached, (int)nop::ErrorStatus::StreamError}) {
+          std::string cid = std::string("C14|fault|") + tag + "|" + ops[i].name + "|" + (side == 0 ? "W" : "R") + std::to_string(k) + "|e" + std::to_string(e);
+          if (!R.want(cid)) continue;
+          Conn c;
+          c.cr.on_dry = [&]() { if (!c.req.empty()) serve_once(c, b); };
+          Fault& f = side == 0 ? c.cw.f : c.cr.f;
+          f.fail_at = k;
+          f.fail_with = e;
+          g_log.clear();
+          ops[i].run(c);
+          R.counters["evaluations"]++;
+          R.counters["transitions"]++;
+          R.distinct_direct++;
+          std::string why;
+          if (g_last_invoke_error != e) why = "client I/O call #" + std::to_string(k) + " failed with " + std::to_string(e) + " but Invoke returned status " + std::to_string(g_last_invoke_error);
+          else if (f.calls_after_failure) why = std::to_string(f.calls_after_failure) + " further calls on the failed " + (side == 0 ? "writer" : "reader");
+          else if (side == 0 && c.server_runs) why = "the request was dispatched although writing it failed";
+          else if (side == 0 && c.cr.f.calls) why = "the caller waited for a reply although writing the request failed";
+          if (!why.empty()) {
+            R.outcome("MISMATCH");
+            R.viol(std::string("C14|client-fault|") + (side == 0 ? "write" : "read"), cid, why, "{\"call\":" + jstr(ops[i].name) + "}");
+          } else {
+            R.outcome("fault-propagated");
+          }
+        }
+  }
+}
+
 template <class... Ts>
 static Sch args_sch() { return Br<std::tuple<Ts...>>::sch(); }
 
@@ -441,6 +507,7 @@ int main(int argc, char** argv) {
     };
     explore_bad_requests<std::uint64_t>("lambda+fnptr", ops, [&](Conn& c) { serve_once(c, b); }, bound,
                                         {IfA::Unbound::Selector, 0, 1, IfA::Sum::Selector ^ 1, IfA::Sum::Selector & 0xffffffffULL});
+    explore_client_faults("lambda+fnptr", ops, b);
   }
   {
     // method-pointer bindings with the instance as passthrough argument; partial binding (4 of 8 methods)
